@@ -56,6 +56,9 @@ def depth(tier):
     return 4
 
 
+DEEP = 5       # thorough: additionally all closed programs of <= 5 lines over the quick alphabet
+
+
 GRID_N = list(range(1, 18)) + [32, 64, 100, 256, 4096]
 FRONTS = {'none': [], 'addi8': [progs.I('addi', rd=8, rs1=8, imm=1)], 'li1': [L.li(9, 1)]}
 
